@@ -13,6 +13,64 @@ class Broken(Exception):
     """analysis broken / inconclusive: exit 2 (never a pass, never a violation)."""
 
 
+def known_names(F):
+    """Every class, field and function name the parsed program defines or calls."""
+    if getattr(F, "_known_names", None) is None:
+        k = set()
+        for r in F.records.values():
+            q = r.get("qname")
+            k.add(q)
+            k.add(r.get("inst"))
+            for f in r.get("fields", []):
+                k.add("%s::%s" % (q, f.get("name")))
+        for fn in F.fns:
+            k.add(fn.qname)
+            if fn.cls:
+                k.add(fn.cls)
+            for _, ev in fn.all_nodes():
+                c = ev.get("callee")
+                if c:
+                    k.add(c)
+                if ev.get("cls"):
+                    k.add(ev["cls"])
+                if ev.get("field"):        # member accesses and constructor initialisers (covers
+                    k.add(ev["field"])     # members of anonymous unions, which records do not list)
+                if ev.get("k") == "var" and ev.get("qname"):
+                    k.add(ev["qname"])
+        for w in F.witnesses:
+            k.add(w)
+        F._known_names = k
+    return F._known_names
+
+
+def missing_anchors(mod, F):
+    """The qualified names a rule module is written against ("dispenso::...") that no longer exist in
+    the parsed program. A rule whose vocabulary has vanished (a renamed field or function) can
+    neither pass nor fail: the check reports analysis-broken (exit 2) and prints no VIOLATION."""
+    import inspect
+    import re as _re
+    srcs = [inspect.getsource(mod)]
+    for extra in getattr(mod, "ANCHOR_SOURCES", []):
+        with open(os.path.join(VERIF, extra)) as fh:
+            srcs.append(fh.read())
+    lits = set()
+    for src in srcs:
+        body = src
+        for m in _re.finditer(r"[\"']((?:dispenso|dsa_driver)::[A-Za-z_0-9:]+(?:::\((?:ctor|dtor)\))?)[\"']", body):
+            lits.add(m.group(1))
+    optional = set(getattr(mod, "OPTIONAL_ANCHORS", ()))
+    known = known_names(F)
+    out = []
+    for lit in sorted(lits):
+        if lit in optional or lit in known or lit.endswith("::"):
+            continue
+        # a namespace / class / name prefix used with startswith()
+        if any(k and k.startswith(lit) for k in known):
+            continue
+        out.append(lit)
+    return out
+
+
 class Run:
     def __init__(self, pid, tier, F, info, mod):
         self.pid = pid
@@ -107,6 +165,18 @@ class Run:
                     reported_known.append(m[0])
             else:
                 new.append(o)
+        lost = getattr(self, "anchor_lost", None)
+        if lost:
+            # the vocabulary the rules are written in is gone (renamed / removed definitions): whatever
+            # the rules concluded is unreliable -- neither a pass nor a violation
+            self.broken.insert(0, "the rule module refers to names that the parsed program no longer defines or calls: %s (renamed or removed? update props/%s.py); %d would-be violation(s) suppressed as unreliable"
+                               % (", ".join(lost[:8]), pid, len(new)))
+            for b in self.broken:
+                print("ANALYSIS-BROKEN property=%s %s" % (pid, b))
+            for o in new:
+                o["status"] = "unreliable"
+            self.write_evidence([], reported_known)
+            return 2
         for k in reported_known:
             print("KNOWN-FINDING: property=%s %s" % (pid, k["what"]))
         rdir = os.environ.get("DSA_REPLAY_DIR") or os.path.join("out", "replay")
